@@ -172,18 +172,23 @@ class WebsocketSession(object):
             proxy_username=_proxy_url.username,
             proxy_password=_proxy_url.password
         )
-        sock.sendall(proxy_request)
-        proxy_parser = proxy.ProxyParser()
-        response = None
-        while response is None:
-            data = sock.recv(1024)
-            for response in proxy_parser.feed(data):
-                break
-        return (
-            self._wrap_socket(sock, self.websocket.host)
-            if self.websocket.is_secure else
-            sock
-        )
+        try:
+            sock.sendall(proxy_request)
+            proxy_parser = proxy.ProxyParser()
+            response = None
+            while response is None:
+                data = sock.recv(1024)
+                for response in proxy_parser.feed(data):
+                    break
+            return (
+                self._wrap_socket(sock, self.websocket.host)
+                if self.websocket.is_secure else
+                sock
+            )
+        except Exception:
+            # No tunnel, don't leave the connection to the proxy open
+            sock.close()
+            raise
 
     def _connect(self):
         """Create socket and connect."""
